@@ -8,10 +8,7 @@ package harness
 
 import (
 	"fmt"
-	"sort"
-	"strings"
 
-	"github.com/gammazero/nexus/v3/wamp"
 	"pgregory.net/rapid"
 )
 
@@ -23,7 +20,9 @@ func init() {
 			"or whose filter/exclusion removed an otherwise-receiving session, or that followed an unsubscribe/departure from a matching subscription; " +
 			"distinct = distinct case hash",
 		Gen:       genC01,
-		NewOracle: func(c *Case) Oracle { return newBrokerOracle(c, "C01") },
+		NewOracle: func(c *Case) Oracle {
+			return newComposite(c, "C01", func(w *World) []Part { return []Part{newBrokerPart(w)} })
+		},
 		Assumptions: []string{
 			"sequential histories only: synctest.Wait() after every op, so outcomes are schedule independent",
 			"payload values restricted to the WAMP data model (ints within ±2^53, finite floats, no binary)",
@@ -193,457 +192,3 @@ func genC01(t *rapid.T) *Case {
 	return c
 }
 
-// ---- reference broker model ------------------------------------------------------
-
-type mSub struct {
-	id      wamp.ID
-	topic   string
-	class   string
-	members map[int]bool
-}
-
-type mSess struct {
-	joined bool
-	ended  bool
-	sid    wamp.ID
-	attrs  map[string]string // string-valued session details
-}
-
-type brokerOracle struct {
-	baseOracle
-	prop   string
-	c      *Case
-	strict map[string]bool // realm -> strict
-	sess   []*mSess
-	subs   map[string]*mSub // key realm|class|topic
-	byID   map[string]*mSub // realm|id
-	// recently affected keys (for the non-triviality rule)
-	touched map[string]bool
-}
-
-func newBrokerOracle(c *Case, prop string) *brokerOracle {
-	o := &brokerOracle{prop: prop, c: c, strict: map[string]bool{}, subs: map[string]*mSub{}, byID: map[string]*mSub{}, touched: map[string]bool{}}
-	for _, r := range c.Realms {
-		o.strict[r.URI] = r.Strict
-	}
-	for range c.Sess {
-		o.sess = append(o.sess, &mSess{attrs: map[string]string{}})
-	}
-	return o
-}
-
-func (o *brokerOracle) fail(st *StepRec, format string, a ...any) *Violation {
-	return &Violation{Prop: o.prop, Step: st.N, Reason: fmt.Sprintf(format, a...)}
-}
-
-func subKey(realm, class, topic string) string { return realm + "|" + class + "|" + topic }
-
-func (o *brokerOracle) removeSession(idx int) {
-	realm := o.c.Sess[idx].Realm
-	for k, s := range o.subs {
-		if !strings.HasPrefix(k, realm+"|") {
-			continue
-		}
-		if s.members[idx] {
-			delete(s.members, idx)
-			o.touched[k] = true
-			if len(s.members) == 0 {
-				delete(o.subs, k)
-				delete(o.byID, fmt.Sprintf("%s|%d", realm, s.id))
-			}
-		}
-	}
-}
-
-// expectation bookkeeping: per session list of predicates that must each be
-// satisfied by exactly one received message, and nothing else may be received.
-type expMsg struct {
-	desc  string
-	match func(m wamp.Message) bool
-}
-
-func isMetaEvent(m wamp.Message) bool {
-	ev, ok := m.(*wamp.Event)
-	if !ok {
-		return false
-	}
-	tp, _ := wamp.AsString(ev.Details["topic"])
-	return strings.HasPrefix(tp, "wamp.")
-}
-
-func checkExpectations(exp map[int][]expMsg, recv map[int][]wamp.Message, nsess int, ignore func(int, wamp.Message) bool) string {
-	for s := 0; s < nsess; s++ {
-		var got []wamp.Message
-		for _, m := range recv[s] {
-			if ignore != nil && ignore(s, m) {
-				continue
-			}
-			got = append(got, m)
-		}
-		want := exp[s]
-		used := make([]bool, len(got))
-		for _, w := range want {
-			found := false
-			for i, g := range got {
-				if !used[i] && w.match(g) {
-					used[i] = true
-					found = true
-					break
-				}
-			}
-			if !found {
-				var gs []string
-				for _, g := range got {
-					gs = append(gs, MsgString(g))
-				}
-				return fmt.Sprintf("session %d: expected %s, received [%s]", s, w.desc, strings.Join(gs, "; "))
-			}
-		}
-		for i, g := range got {
-			if !used[i] {
-				return fmt.Sprintf("session %d: unexpected message %s", s, MsgString(g))
-			}
-		}
-	}
-	return ""
-}
-
-func (o *brokerOracle) OnStep(e *Engine, st *StepRec) *Violation {
-	exp := map[int][]expMsg{}
-	// Non-message ops first (drop).
-	for _, oi := range st.OpIdx {
-		op := &e.C.Ops[oi]
-		if op.K == "drop" && o.sess[op.S].joined && !o.sess[op.S].ended {
-			o.sess[op.S].ended = true
-			o.removeSession(op.S)
-		}
-	}
-	if st.Phase == "drop" {
-		for i, s := range o.sess {
-			if s.joined && !s.ended {
-				s.ended = true
-				o.removeSession(i)
-			}
-		}
-	}
-	var pubID *wamp.ID
-	for _, sr := range st.Sent {
-		ms := o.sess[sr.S]
-		realm := o.c.Sess[sr.S].Realm
-		switch m := sr.Msg.(type) {
-		case *wamp.Hello:
-			// Outcome taken from the observation (C09 owns the handshake).
-			for _, r := range st.Recv[sr.S] {
-				if w, ok := r.(*wamp.Welcome); ok && !ms.joined {
-					ms.joined = true
-					ms.sid = w.ID
-					for _, kv := range o.c.Sess[sr.S].Hello {
-						if kv.V.T == "str" {
-							ms.attrs[kv.K] = kv.V.S
-						}
-					}
-					for k, v := range w.Details {
-						if s, ok := wamp.AsString(v); ok {
-							ms.attrs[k] = s
-						}
-					}
-				}
-			}
-			if !ms.joined {
-				ms.ended = true
-			}
-			exp[sr.S] = append(exp[sr.S], expMsg{"WELCOME or ABORT", func(m wamp.Message) bool {
-				switch m.(type) {
-				case *wamp.Welcome, *wamp.Abort:
-					return true
-				}
-				return false
-			}})
-		case *wamp.Subscribe:
-			if !ms.joined || ms.ended {
-				continue
-			}
-			match, _ := wamp.AsString(m.Options["match"])
-			class := policyClass(match)
-			valid, grey := modelValidURI(string(m.Topic), o.strict[realm], match)
-			if grey {
-				return nil
-			}
-			req := m.Request
-			if !valid {
-				o.st.Label("subscribe_invalid_uri")
-				exp[sr.S] = append(exp[sr.S], expMsg{fmt.Sprintf("ERROR{SUBSCRIBE req=%d wamp.error.invalid_uri}", req), func(x wamp.Message) bool {
-					er, ok := x.(*wamp.Error)
-					return ok && er.Type == wamp.SUBSCRIBE && er.Request == req && er.Error == wamp.ErrInvalidURI
-				}})
-				continue
-			}
-			key := subKey(realm, class, string(m.Topic))
-			existing := o.subs[key]
-			var got *wamp.Subscribed
-			for _, r := range st.Recv[sr.S] {
-				if sd, ok := r.(*wamp.Subscribed); ok && sd.Request == req {
-					got = sd
-				}
-			}
-			if got == nil {
-				return o.fail(st, "session %d: SUBSCRIBE req=%d topic=%q match=%q got no SUBSCRIBED (received %s)", sr.S, req, m.Topic, match, recvString(st.Recv[sr.S]))
-			}
-			if existing != nil {
-				if got.Subscription != existing.id {
-					return o.fail(st, "session %d: SUBSCRIBE to live (%s,%q) answered with id %d, but the live subscription has id %d", sr.S, class, m.Topic, got.Subscription, existing.id)
-				}
-				if existing.members[sr.S] {
-					o.st.Label("resubscribe_same_session")
-				}
-				existing.members[sr.S] = true
-			} else {
-				idk := fmt.Sprintf("%s|%d", realm, got.Subscription)
-				if other := o.byID[idk]; other != nil {
-					return o.fail(st, "session %d: new subscription (%s,%q) got id %d which is the id of live subscription (%s,%q)", sr.S, class, m.Topic, got.Subscription, other.class, other.topic)
-				}
-				ns := &mSub{id: got.Subscription, topic: string(m.Topic), class: class, members: map[int]bool{sr.S: true}}
-				o.subs[key] = ns
-				o.byID[idk] = ns
-			}
-			exp[sr.S] = append(exp[sr.S], expMsg{"SUBSCRIBED", func(x wamp.Message) bool { return x == wamp.Message(got) }})
-		case *wamp.Unsubscribe:
-			if !ms.joined || ms.ended {
-				continue
-			}
-			req := m.Request
-			idk := fmt.Sprintf("%s|%d", realm, m.Subscription)
-			sub := o.byID[idk]
-			isErr := func(x wamp.Message) bool {
-				er, ok := x.(*wamp.Error)
-				return ok && er.Type == wamp.UNSUBSCRIBE && er.Request == req && er.Error == wamp.ErrNoSuchSubscription
-			}
-			isOK := func(x wamp.Message) bool {
-				u, ok := x.(*wamp.Unsubscribed)
-				return ok && u.Request == req
-			}
-			switch {
-			case sub == nil:
-				o.st.Label("unsubscribe_unknown")
-				exp[sr.S] = append(exp[sr.S], expMsg{fmt.Sprintf("ERROR{UNSUBSCRIBE req=%d no_such_subscription}", req), isErr})
-			case sub.members[sr.S]:
-				delete(sub.members, sr.S)
-				key := subKey(realm, sub.class, sub.topic)
-				o.touched[key] = true
-				if len(sub.members) == 0 {
-					delete(o.subs, key)
-					delete(o.byID, idk)
-				}
-				exp[sr.S] = append(exp[sr.S], expMsg{fmt.Sprintf("UNSUBSCRIBED{req=%d}", req), isOK})
-			default:
-				// live but held only by others: reply unspecified, no effect on holders.
-				o.st.Label("unsubscribe_foreign")
-				exp[sr.S] = append(exp[sr.S], expMsg{"UNSUBSCRIBED or ERROR no_such_subscription", func(x wamp.Message) bool { return isErr(x) || isOK(x) }})
-			}
-		case *wamp.Publish:
-			if !ms.joined || ms.ended {
-				continue
-			}
-			if v := o.expectPublish(st, sr.S, realm, m, exp, &pubID); v != nil {
-				return v
-			}
-		case *wamp.Goodbye:
-			if !ms.joined || ms.ended {
-				continue
-			}
-			ms.ended = true
-			o.removeSession(sr.S)
-			exp[sr.S] = append(exp[sr.S], expMsg{"GOODBYE", func(x wamp.Message) bool { _, ok := x.(*wamp.Goodbye); return ok }})
-		}
-	}
-	if msg := checkExpectations(exp, st.Recv, len(o.sess), func(s int, m wamp.Message) bool { return isMetaEvent(m) }); msg != "" {
-		return o.fail(st, "%s", msg)
-	}
-	return nil
-}
-
-func recvString(ms []wamp.Message) string {
-	var out []string
-	for _, m := range ms {
-		out = append(out, MsgString(m))
-	}
-	return "[" + strings.Join(out, "; ") + "]"
-}
-
-// modelFilterAllows implements the exclude/eligible rules of C01 over a
-// session's id and string attributes.
-func modelFilterAllows(opts wamp.Dict, sid wamp.ID, attrs map[string]string) bool {
-	idIn := func(v any) (bool, bool) {
-		l, ok := wamp.AsList(v)
-		if !ok || len(l) == 0 {
-			return false, false
-		}
-		for _, x := range l {
-			if id, ok := wamp.AsID(x); ok && id == sid {
-				return true, true
-			}
-		}
-		return false, true
-	}
-	if v, ok := opts["exclude"]; ok {
-		if in, _ := idIn(v); in {
-			return false
-		}
-	}
-	if v, ok := opts["eligible"]; ok {
-		if in, given := idIn(v); given && !in {
-			return false
-		}
-	}
-	for k, v := range opts {
-		var attr string
-		var excl bool
-		switch {
-		case strings.HasPrefix(k, "exclude_") && k != "exclude_me":
-			attr, excl = k[len("exclude_"):], true
-		case strings.HasPrefix(k, "eligible_"):
-			attr = k[len("eligible_"):]
-		default:
-			continue
-		}
-		l, ok := wamp.AsList(v)
-		if !ok {
-			continue
-		}
-		var vals []string
-		for _, x := range l {
-			if s, ok := wamp.AsString(x); ok && s != "" {
-				vals = append(vals, s)
-			}
-		}
-		if len(vals) == 0 {
-			continue
-		}
-		have, has := attrs[attr]
-		in := false
-		for _, s := range vals {
-			if has && s == have {
-				in = true
-			}
-		}
-		if excl && in {
-			return false
-		}
-		if !excl && !in {
-			return false
-		}
-	}
-	return true
-}
-
-func (o *brokerOracle) expectPublish(st *StepRec, pubS int, realm string, m *wamp.Publish, exp map[int][]expMsg, pubIDp **wamp.ID) *Violation {
-	ack, _ := m.Options["acknowledge"].(bool)
-	req := m.Request
-	valid, grey := modelValidURI(string(m.Topic), o.strict[realm], "")
-	if grey {
-		return nil
-	}
-	if !valid {
-		o.st.Label("publish_invalid_uri")
-		if ack {
-			exp[pubS] = append(exp[pubS], expMsg{fmt.Sprintf("ERROR{PUBLISH req=%d invalid_uri}", req), func(x wamp.Message) bool {
-				er, ok := x.(*wamp.Error)
-				return ok && er.Type == wamp.PUBLISH && er.Request == req && er.Error == wamp.ErrInvalidURI
-			}})
-		}
-		return nil
-	}
-	excludeMe := true
-	if b, ok := m.Options["exclude_me"].(bool); ok {
-		excludeMe = b
-	}
-	// One publication id for everybody: bind on first sight.
-	var pid wamp.ID
-	bind := func(id wamp.ID) bool {
-		if pid == 0 {
-			pid = id
-			return true
-		}
-		return pid == id
-	}
-	classes := map[string]bool{}
-	filtered := false
-	afterChange := false
-	nrecv := 0
-	keys := make([]string, 0, len(o.subs))
-	for k := range o.subs {
-		keys = append(keys, k)
-	}
-	sort.Strings(keys)
-	for _, k := range keys {
-		sub := o.subs[k]
-		if !strings.HasPrefix(k, realm+"|") || !modelMatches(string(m.Topic), sub.topic, sub.class) {
-			continue
-		}
-		if o.touched[k] {
-			afterChange = true
-		}
-		for idx := range sub.members {
-			rs := o.sess[idx]
-			if idx == pubS && excludeMe {
-				if len(sub.members) > 0 {
-					filtered = filtered || false
-				}
-				continue
-			}
-			if !modelFilterAllows(m.Options, rs.sid, rs.attrs) {
-				filtered = true
-				continue
-			}
-			classes[sub.class] = true
-			nrecv++
-			subID, class, topic := sub.id, sub.class, string(m.Topic)
-			args, kw := m.Arguments, m.ArgumentsKw
-			exp[idx] = append(exp[idx], expMsg{
-				fmt.Sprintf("EVENT{sub=%d topic=%q}", subID, topic),
-				func(x wamp.Message) bool {
-					ev, ok := x.(*wamp.Event)
-					if !ok || ev.Subscription != subID {
-						return false
-					}
-					if class != "exact" {
-						tp, _ := wamp.AsString(ev.Details["topic"])
-						if tp != topic {
-							return false
-						}
-					}
-					if !PayloadEq(ev.Arguments, args) || !PayloadEq(ev.ArgumentsKw, kw) {
-						return false
-					}
-					return bind(ev.Publication)
-				}})
-		}
-	}
-	if ack {
-		exp[pubS] = append(exp[pubS], expMsg{fmt.Sprintf("PUBLISHED{req=%d}", req), func(x wamp.Message) bool {
-			p, ok := x.(*wamp.Published)
-			return ok && p.Request == req && bind(p.Publication)
-		}})
-	}
-	// labels / non-triviality
-	o.st.Label("publish")
-	if nrecv > 0 {
-		o.st.Label("publish_delivered")
-	}
-	if len(classes) >= 2 {
-		o.st.Label("publish_multi_policy")
-		o.st.NonTrivial = true
-	}
-	if filtered {
-		o.st.Label("publish_filter_excluded")
-		o.st.NonTrivial = true
-	}
-	if afterChange {
-		o.st.Label("publish_after_membership_change")
-		o.st.NonTrivial = true
-	}
-	for k := range m.Options {
-		o.st.Label("opt:" + k)
-	}
-	return nil
-}
